@@ -160,7 +160,9 @@ class HTTP(BaseComponent):
                 del self._clients[sock]
             res.done = True
             return
-        if res.stream and res.body:
+        # (the stream flag may be left over from a file body that was replaced
+        # later, e.g. by an error page: only an iterator can be streamed)
+        if res.stream and res.body and hasattr(res.body, '__next__'):
             try:
                 data = next(res.body)
                 while not data:  # Skip over any null byte sequences
